@@ -36,6 +36,9 @@ META = {
         'E1 models double fields as exact reals',
         'non-negative event times in the snap harnesses (negative times only in '
         'the rejection harness)',
+        'L5: integer tempi 10..480 whose steps per second is an integer; '
+        'steps_per_quarter from {1,2,3,4,6,8,12,24,30,50,60,96} (quick) / '
+        '1..96 (thorough)',
         'E2 lemmas: x = t*steps_per_second is an arbitrary double in the stated '
         'range; the multiplication itself is covered by the axiom that '
         'correctly rounded multiplication by a positive constant is monotone',
@@ -525,6 +528,83 @@ def _real_quantize_to_step():
   return call_many
 
 
+def _lemma_sps(job):
+  """L5: steps_per_quarter_to_steps_per_second is exact whenever the true value
+  spq*qpm/60 is an integer (integer tempi): the derived steps per second then
+  puts no event on the wrong side of a half-step boundary."""
+  import z3  # pylint: disable=g-import-not-at-top
+  from engine import fpk  # pylint: disable=g-import-not-at-top
+  spq = job['params']['spq']
+  fnode, _ = fpk.get_function('sequences_lib',
+                              'steps_per_quarter_to_steps_per_second')
+  q = z3.BitVec('q', 64)
+  tr = fpk.Translator()
+  qf = z3.fpSignedToFP(fpk.RNE, q, fpk.F64)
+  res = tr.function(fnode, {'steps_per_quarter': fpk.iv(spq),
+                            'qpm': fpk.V(qf, 'fp')})
+  # translator validation on concrete tempi against the real function
+  real = _real_sps()
+  pts = [10, 60, 97, 120, 123, 245, 480]
+  wants = real(spq, pts)
+  for v, want in zip(pts, wants):
+    got = fpk.eval_concrete(res, [(q, v)])
+    if got != want:
+      return {'status': 'error', 'error': 'FP translator disagrees with '
+              'steps_per_quarter_to_steps_per_second(%d, %d): %r vs %r' %
+              (spq, v, got, want)}
+  prod = spq * q
+  exact = z3.fpSignedToFP(fpk.RNE, z3.UDiv(prod, z3.BitVecVal(60, 64)), fpk.F64)
+  rng = [q >= 10, q <= 480, z3.URem(prod, z3.BitVecVal(60, 64)) == 0]
+  r = fpk.solve(rng + [z3.Not(z3.fpEQ(res.t, exact))], timeout_s=200,
+                want_model={'q': q})
+  t = fpk.solve(rng, timeout_s=20)
+  obligations = [{
+      'lemma': 'L5[spq=%d]' % spq,
+      'statement': 'for every integer tempo q in [10,480] with 60 | spq*q: '
+                   'steps_per_quarter_to_steps_per_second(spq, q) == spq*q/60 '
+                   'exactly (binary64)',
+      'expect': 'unsat', 'result': r['result'], 'seconds': r['seconds'],
+      'backend': r['backend'], 'discharged': r['result'] == 'unsat'
+  }, {
+      'lemma': 'L5-twin[spq=%d]' % spq, 'statement': 'assumptions satisfiable',
+      'expect': 'sat', 'result': t['result'], 'seconds': t['seconds'],
+      'backend': t['backend'], 'discharged': t['result'] == 'sat'
+  }]
+  out = {'obligations': obligations, 'status': 'ok', 'solver_queries': 2,
+         'solver_seconds': round(r['seconds'] + t['seconds'], 3)}
+  if r['result'] == 'sat':
+    out['status'] = 'violation'
+    out['violations'] = [{
+        'label': 'L5 steps per second not exact for an integer tempo',
+        'values': {'lemma': 'L5', 'spq': spq, 'q': r['model']['q'],
+                   'x': float(0).hex()}, 'source': 'solver'}]
+  elif r['result'] != 'unsat' or t['result'] != 'sat':
+    out['status'] = 'inconclusive'
+    out['error'] = 'L5[spq=%d]: %s / twin %s' % (spq, r['result'], t['result'])
+  return out
+
+
+def _real_sps():
+  import json  # pylint: disable=g-import-not-at-top
+  import os  # pylint: disable=g-import-not-at-top
+  import subprocess  # pylint: disable=g-import-not-at-top
+  import sys  # pylint: disable=g-import-not-at-top
+  verif = os.path.dirname(os.path.dirname(os.path.abspath(__file__)))
+
+  def call(spq, qs):
+    code = ('import sys, json\nsys.path.insert(0, %r)\n'
+            'from engine import loader\nenv = loader.RealEnv()\n'
+            'f = env.mod("sequences_lib").steps_per_quarter_to_steps_per_second\n'
+            'print(json.dumps([float(f(%d, float(q))).hex() for q in %r]))' %
+            (verif, spq, list(qs)))
+    p = subprocess.run([sys.executable, '-c', code], stdout=subprocess.PIPE,
+                       stderr=subprocess.PIPE, text=True)
+    return [float.fromhex(h) for h in
+            json.loads(p.stdout.strip().splitlines()[-1])]
+
+  return call
+
+
 def h_lemma_witness(c):
   """Concrete replay of a lemma counterexample on the real function, with the
   oracle evaluated in exact rational arithmetic."""
@@ -532,6 +612,12 @@ def h_lemma_witness(c):
   from fractions import Fraction  # pylint: disable=g-import-not-at-top
   sl = c.mod('sequences_lib')
   lemma = c.values.get('lemma', 'L2')
+  if lemma == 'L5':
+    spq, q = int(c.values['spq']), int(c.values['q'])
+    got = sl.steps_per_quarter_to_steps_per_second(spq, float(q))
+    c.check(Fraction(got) == Fraction(spq * q, 60),
+            'L5 steps per second not exact for an integer tempo')
+    return
   x = float.fromhex(c.values['x'])
   q = sl.quantize_to_step(x, 1)
   if lemma == 'L1':
@@ -550,7 +636,8 @@ def h_lemma_witness(c):
 
 
 HARNESSES['lemmas'] = h_lemma_witness
-FUNCS = {'lemmas': _lemmas}
+HARNESSES['lemma_sps'] = h_lemma_witness
+FUNCS = {'lemmas': _lemmas, 'lemma_sps': _lemma_sps}
 
 
 def jobs(tier):
@@ -562,6 +649,9 @@ def jobs(tier):
 
   deep = tier == 'thorough'
   add('lemmas', kind='func', budget=600)
+  for spq in ((1, 2, 3, 4, 6, 8, 12, 24, 96, 30, 50, 60) if not deep else
+              range(1, 97)):
+    add('lemma_sps', kind='func', budget=400, spq=spq)
   for sps in (1, 3, 31, 100, 1000):
     add('h1_absolute', N=1, sps=sps)
   add('h1_absolute', N=2, sps=31)
